@@ -574,6 +574,8 @@ class Verifier:
                 call_args = dict(kwargs)
                 for k, v in enumerate(args):
                     call_args['arg%d' % k] = v
+                # objects and arrays may be modified by the call: the counterexample must show the arguments as they were PASSED
+                call_args = {k: _freeze_arg(v) for k, v in call_args.items()}
                 try:
                     if callable(f) and not isinstance(f, FuncVal):
                         res = f(itp, *args, **kwargs)
@@ -730,6 +732,29 @@ class Verifier:
                 a[ix] = to_jsonable(mval(model, get(*ix)))
             return a.tolist()
         return None
+
+
+def _freeze_arg(v, depth=0):
+    """pre-state copy of an argument for counterexample rendering (arrays snapshotted, objects copied attribute-wise)"""
+    from .interp import ObjVal
+    try:
+        if isinstance(v, BArr):
+            return v.copy()
+        if isinstance(v, CArr):
+            return v.snapshot()
+        if isinstance(v, ObjVal) and depth < 2:
+            o = ObjVal(v.cls)
+            o.attrs = {k: _freeze_arg(a, depth + 1) for k, a in v.attrs.items()}
+            return o
+        if isinstance(v, list) and depth < 2:
+            return [_freeze_arg(a, depth + 1) for a in v]
+        if isinstance(v, tuple) and depth < 2:
+            return tuple(_freeze_arg(a, depth + 1) for a in v)
+        if isinstance(v, dict) and depth < 2:
+            return {k: _freeze_arg(a, depth + 1) for k, a in v.items()}
+    except Exception:
+        return v
+    return v
 
 
 def _tag(v):
